@@ -25,6 +25,9 @@ func gen(c *hmain.Ctx) {
 	add("two-holders", pipedrv.FamTwoHolders, 60)
 	add("retry", pipedrv.FamRetry, 30)
 	add("deadqueue", pipedrv.FamDeadQ, 30)
+	for i := 0; i < 4; i++ {
+		jobs = append(jobs, &pipedrv.Job{Stream: "deadqueue", Case: pipedrv.DeadQOvertake(1+i%2, 120+20*i, 50+10*i)})
+	}
 	pipedrv.RunJobs(jobs, 40)
 	for _, j := range jobs {
 		c.W.Case(j.Stream, 0, j.Case, j.Obs, true)
